@@ -138,7 +138,7 @@ PROPERTIES = {
         assumptions=["that formatted modules import is autoflake/isort/black/pydantic's (assumed, sampled by the stand-in)"],
     ),
     "C02": dict(
-        modules=["contracts.c02_documents", "contracts.c17_settings", "contracts.c03_arguments"],
+        modules=["contracts.c02_documents", "contracts.c17_settings", "contracts.c03_arguments", "contracts.c02_reachable", "contracts.c01_typedef"],
         bounded=[_bounded.lazy("contracts.e2e_variables", "bounded_method_locals"), _bounded.lazy("contracts.e2e_documents", "bounded_documents"),
                  _bounded.lazy("contracts.c11_multipart", "bounded_wire"), _bounded.lazy("contracts.e2e_fuzz", "bounded_generated_documents")],
         explanation="method-body templates (the bound query text is what is sent, under every renaming of the method locals), operation validation rule set; whole documents by an end-to-end bounded stand-in",
